@@ -25,6 +25,9 @@ CHECKS = {
     'C08': dict(tech=SYMX, ref='3/C08',
                 text='Structural part only: for N=1..6 and Domains built from dr, from dk and after a re-assignment of dr/dk/length, the solver proves for all f, F and spacings that to_fourier(f)_j = 4*pi*dr*Sum_n r_n f_n sin(k_j(r_n-dr/2))/k_j and to_real(F)_i = dk/(2*pi^2 r_i)*Sum\'_n k_n F_n sin(k_n(r_i-dr/2)) on the harness\'s own grid, i.e. each direction separately is the half-cell-shifted Riemann sum of its continuous 3-D integral with prefactor 4*pi resp. 1/(2*pi^2) (compensating prefactor errors are refuted).',
                 note='The convergence statement (error <= C*dr, monotone under refinement, k->0 limit) is NOT decided: not encodable; O(dr) consistency follows from the proven Riemann-sum form by the textbook argument. sin is linked to exact algebraic values at rational multiples of pi.'),
+    'C01': dict(tech=SYMX, ref='3/C01',
+                text='The real System.createPRISM() + PRISM.cost(x) are executed with symbolic densities, kT, dr (or dk), arbitrary potentials (fresh symbol per point), arbitrary tabulated omega and an arbitrary trial vector x; the solver proves, for every evaluation, (A) rho_pair*H = Omega C (Omega + rho_pair*H) entrywise at every k with Omega = user omega * site density, (B) each pair\'s real-space closure output equals that pair\'s published closure of gamma_in = x/r, that pair\'s u/kT and sigma, and directCorr(k) is its Riemann-sum transform, (C) y = r*(FT^-1(H-C) - x/r); PRISM.solve/System.solve with a nondeterministic root stub leave totalCorr (real space), directCorr, omega and minimize_result.fun equal to those of the returned point. Includes list-assigned tables, kT assigned after construction, explicit potential sigma, Domain built from dk. Bounded: rank 1-3, N=2-3.',
+                note='Trusted: numpy object arrays, z3, stubs (dst sine sums, adjugate inverse, root stub whose contract is validated concretely on scipy each run). The step from the residual to the closure discrepancy is a mean-value argument on paper. MS oracle = shipped expression (C09 known finding).'),
 }
 
 NOT_YET = {}
